@@ -212,6 +212,26 @@ static void exec_line(char *line) {
       g_trigger &= ~IWKVD_WAL_NO_CHECKPOINT_ON_CLOSE;
     }
     printf("\n");
+  } else if (!strcmp(w[0], "roll") && n == 6 && L_wal) {  // roll <work.db> <mode 1|2> <crc> <cut> <flips>: _rollforward_exl alone
+    char wp[520]; snprintf(wp, sizeof wp, "%s-wal", w[1]);
+    int mode = atoi(w[2]), crc = atoi(w[3]); size_t dn; uint8_t *d = damaged((size_t) atol(w[4]), w[5], &dn);
+    spit(w[1], L_pre, L_pren); spit(wp, d, dn); free(d);
+    struct iwkv fk; memset(&fk, 0, sizeof fk);
+    struct iwal fw; memset(&fw, 0, sizeof fw);
+    fw.iwkv = &fk; fw.check_cp_crc = crc != 0; fw.fh = open(wp, O_RDWR);
+    IWFS_EXT extf;
+    IWFS_EXT_OPTS eo = { .file = { .path = w[1], .omode = IWFS_OCREATE | IWFS_OWRITE }, .use_locks = false, .maxoff = IWKV_MAX_DBSZ };
+    iwrc rc = iwfs_exfile_open(&extf, &eo);
+    if (!rc) {
+      off_t fsz = 0; iwp_lseek(fw.fh, 0, IWP_SEEK_END, &fsz);
+      if (fsz) rc = _rollforward_exl(&fw, &extf, mode);   // _recover_wl returns early on an empty log
+      IWRC(extf.close(&extf), rc);
+    }
+    close(fw.fh);
+    size_t mn; uint8_t *m = slurp(w[1], &mn);
+    const char *cls = !rc ? "ok" : rc == IWKV_ERROR_CORRUPTED_WAL_FILE ? "walcorrupt" : rc == IWFS_ERROR_MAXOFF ? "ioerr" : rcname(rc);
+    printf("roll rc=%s msz=%zu mh=%016" PRIx64 " wsz=%ld\n", cls, mn, fnv(FNV0, m, mn), fsize(wp));
+    free(m);
   } else printf("bad-op\n");
 }
 
